@@ -3,6 +3,7 @@ package main
 // Hashes, signatures and other crypto primitives as uninterpreted functions / contract stubs.
 
 import (
+	"go/types"
 	"crypto/md5"
 	"crypto/sha1"
 	"crypto/sha256"
@@ -38,6 +39,46 @@ func registerCrypto(P *Program) {
 	r("github.com/minio/sha256-simd.Sum256", func(in *Interp, caller *frame, fn *ssa.Function, args []Value) Value {
 		return in.hashUF("sha256", 32, args[0].(SliceV), func(b []byte) []byte { h := sha256.Sum256(b); return h[:] })
 	})
+	// streaming sha256 (hash.Hash): an engine object that buffers what is written; Sum = UF/native over the buffer
+	newHash := func(in *Interp, caller *frame, fn *ssa.Function, args []Value) Value {
+		return Iface{T: types.Typ[types.Int], V: &Opaque{Kind: "sha256.hash", Data: &bufObj{}}}
+	}
+	r("github.com/minio/sha256-simd.New", newHash)
+	r("crypto/sha256.New", newHash)
+	opaqueMethods["sha256.hash.Write"] = func(in *Interp, op *Opaque, args []Value) Value {
+		s := args[0].(SliceV)
+		b := op.Data.(*bufObj)
+		if s.Blob == nil {
+			s = SliceV{A: append([]Value{}, s.A...)} // snapshot: callers reuse their buffers
+		}
+		b.parts = append(b.parts, s)
+		return Tuple{in.lenTerm(s), Iface{}}
+	}
+	opaqueMethods["sha256.hash.Reset"] = func(in *Interp, op *Opaque, args []Value) Value {
+		op.Data.(*bufObj).parts = nil
+		return nil
+	}
+	opaqueMethods["sha256.hash.Sum"] = func(in *Interp, op *Opaque, args []Value) Value {
+		data := in.bufBytes(op.Data.(*bufObj))
+		h := in.hashUF("sha256", 32, data, func(b []byte) []byte { x := sha256.Sum256(b); return x[:] })
+		return in.appendSlices(args[0].(SliceV), SliceV{A: []Value(h)})
+	}
+	opaqueMethods["sha256.hash.Size"] = func(in *Interp, op *Opaque, args []Value) Value { return in.ts.BV(64, 32) }
+	opaqueMethods["sha256.hash.BlockSize"] = func(in *Interp, op *Opaque, args []Value) Value { return in.ts.BV(64, 64) }
+	// sync.Pool: never retains anything
+	r("(*sync.Pool).Get", func(in *Interp, caller *frame, fn *ssa.Function, args []Value) Value {
+		p := args[0].(Ptr)
+		if p != nil {
+			if st, ok := (*p).(Struct); ok {
+				// field "New" is the last field of sync.Pool
+				if newFn := st[len(st)-1]; newFn != nil {
+					return in.callValue(caller, newFn, nil, nil)
+				}
+			}
+		}
+		return Iface{}
+	})
+	r("(*sync.Pool).Put", func(in *Interp, caller *frame, fn *ssa.Function, args []Value) Value { return nil })
 	// ed25519: Verify is an uninterpreted predicate over (pk, msg, sig); Sign(sk,msg) is a UF with
 	// Verify(pub(sk), m, Sign(sk,m)) (asserted when Sign is called).
 	r("crypto/ed25519.Verify", func(in *Interp, caller *frame, fn *ssa.Function, args []Value) Value {
@@ -67,9 +108,22 @@ func registerCrypto(P *Program) {
 	r("github.com/google/uuid.New", func(in *Interp, caller *frame, fn *ssa.Function, args []Value) Value {
 		in.opq++
 		a := make(Array, 16)
+		var whole *Term
 		for i := range a {
-			a[i] = in.ts.FreshSym(fmt.Sprintf("uuid%d[%d]", in.opq, i), BVSort(8))
+			b := in.ts.FreshSym(fmt.Sprintf("uuid%d[%d]", in.opq, i), BVSort(8))
+			a[i] = b
+			if whole == nil {
+				whole = b
+			} else {
+				whole = in.ts.Concat(whole, b)
+			}
 		}
+		// contract of a random UUID: it differs from every UUID drawn before on this path
+		prev, _ := in.hooks["uuids"].([]*Term)
+		for _, p := range prev {
+			in.addPC(in.ts.Not(in.ts.Eq(p, whole)))
+		}
+		in.hooks["uuids"] = append(prev, whole)
 		return a
 	})
 	r("(github.com/google/uuid.UUID).String", func(in *Interp, caller *frame, fn *ssa.Function, args []Value) Value {
@@ -79,6 +133,8 @@ func registerCrypto(P *Program) {
 			parts = append(parts, in.ts.SUnit(e.(*Term)))
 		}
 		in.injUFs["uuidstr"] = true
-		return in.ts.App("uuidstr", StrSort, in.ts.SConcat(parts...))
+		u := in.ts.App("uuidstr", StrSort, in.ts.SConcat(parts...))
+		in.addPC(in.ts.Eq(in.ts.SLen(u), in.ts.Int(36)))
+		return u
 	})
 }
